@@ -133,7 +133,8 @@ def _strip_event(e):
     e = dict(e)
     sp = e.get("span")
     if isinstance(sp, dict):
-        e["span"] = {"file": sp.get("cs_file") or sp.get("file"), "line": (sp.get("cs_lo") or sp.get("lo") or [0])[0]}
+        e["span"] = {"file": sp.get("cs_file") or sp.get("file"), "line": (sp.get("cs_lo") or sp.get("lo") or [0])[0],
+                     "col": (sp.get("cs_lo") or sp.get("lo") or [0, 0])[1]}
     return e
 
 
